@@ -4,7 +4,7 @@ CHECK = {
  'rule': '(1) rapid multisets of 1-12 peer tips over small value ranges (many ties) through the real peer selection; (2) responder nodes with chains of '
          '3-260 blocks, block cache 4/20/515, optionally a reorganised tail, queried through the three sync RPC handlers with ids on/off the chain, '
          'removed blocks, malformed ids; (3) two in-process nodes over real libp2p connections on loopback: shared prefix, requester fork, better '
-         'responder fork shorter/longer than two rounds (fast vs block sync), then the requester processes the responder\'s tip. Non-trivial = (1) >=2 '
+         'responder fork shorter/longer than two rounds (fast vs block sync), requester fork built honestly or with self-only prevotes (so that the better chain can be the shorter one), clock far behind or up to date, then the requester processes the responder\'s tip; (3a) a requester with 2-3 connected peers (honest chain, taller chain with lower maxHeightPrevoted, optional twin) more than two rounds ahead: block sync must end on the chain of the peer the selection rule names. Non-trivial = (1) >=2 '
          'different block IDs tie on the first two criteria, (2) a request spanning the cache boundary or the 103-block cap, (3) a convergence case in '
          'which the requester had to delete >=2 own blocks. Distinct by digest of the case',
  'level_text': 'Peer choice must be maximal in maxHeightPrevoted, then height, then block-ID frequency (validity predicate, random ties re-run 5x); '
@@ -15,8 +15,8 @@ CHECK = {
  'assumptions': ['fake deterministic application', 'loopback networking'],
  'quick': [{'pkg': 'c19', 'run': 'TestBestPeer', 'checks': 3000, 'timeout': 300},
            {'pkg': 'c19', 'run': 'TestRPCHandlers', 'checks': 25, 'timeout': 600},
-           {'pkg': 'c19', 'run': 'TestConvergence|TestMalicious|TestRegress', 'checks': 12, 'timeout': 900}],
+           {'pkg': 'c19', 'run': 'TestConvergence|TestMultiPeer|TestMalicious|TestRegress', 'checks': 40, 'timeout': 900}],
  'thorough': [{'pkg': 'c19', 'run': 'TestBestPeer', 'checks': 100000, 'shards': 2, 'timeout': 900},
               {'pkg': 'c19', 'run': 'TestRPCHandlers', 'checks': 150, 'shards': 6, 'timeout': 2400},
-              {'pkg': 'c19', 'run': 'TestConvergence|TestMalicious|TestRegress', 'checks': 60, 'shards': 8, 'timeout': 2400}],
+              {'pkg': 'c19', 'run': 'TestConvergence|TestMultiPeer|TestMalicious|TestRegress', 'checks': 150, 'shards': 8, 'timeout': 2400}],
 }
